@@ -174,11 +174,6 @@ class HplExpression(HplAstObject):
             obj = stack.pop()
             if obj.is_accessor:
                 obj.type_check_references(this_msg, variables)
-                # index expressions along the access chain contain references of their own
-                while obj.is_accessor:
-                    if obj.is_indexed:
-                        stack.append(obj.index)
-                    obj = obj.object
             else:
                 stack.extend(reversed(obj.children()))
 
@@ -1539,6 +1534,9 @@ class HplDataAccess(HplExpression):
             t = expr._get_next_token(t)
             self._type_check(expr, t.type)
             # expr.message_type = t
+            if expr.is_indexed:
+                # the index expression contains references of its own
+                expr.index.type_check_references(this_msg, variables)
 
     def _get_next_token(self, token: TypeToken) -> TypeToken:
         raise NotImplementedError()
